@@ -767,6 +767,20 @@ class C11(FsScenario):
     def gen_case(self, seed, tier, idx):
         case = super().gen_case(seed, tier, idx)
         case["watch"]["twin_filter"] = self.filter_for(idx, random.Random(f"{seed}:filter"))
+        F = case["watch"]["twin_filter"]
+        drng = random.Random(f"{seed}:directed")
+        if any("Deleted" in c for c in F) and drng.random() < 0.5 and not case.get("unpaced"):
+            # directed: a filter that asks for deletions must still see entries that leave by a move out of the tree
+            m = fm.Model()
+            for op in case["pre"] + case["ops"]:
+                fm.apply(m, op)
+            m.drain()
+            cands = sorted(q for q in m.t if fm.is_under(q, "root") and q != "root" and m.kind(q) in ("f", "d"))
+            if cands:
+                extra = [["drain"], ["moveout", drng.choice(cands), "o9"], ["drain"]]
+                kept, _ = fm.revalidate(case["pre"], case["ops"] + extra, paced=True, paced_out=self.paced_out)
+                if len(kept) == len(case["ops"]) + len(extra):
+                    case["ops"] = kept
         orng = random.Random(f"{seed}:other-filter")
         if orng.random() < 0.35:
             # a bystander: a third watch on the same directory with another filter (filters are per watch, not per observer)
